@@ -15,7 +15,7 @@ PROP = {
                  "cmp_load_sim", "logic_load_sim", "movx_load_sim", "add_rmw_sim", "sub_rmw_sim", "tie_transfers_when", "logic_rmw_sim", "cmp_mem_sim", "incdec_rmw_sim", "push_sim", "pop_sim", "push_mem_sim", "pop_mem_sim",
                  "adc_sim", "adc_load_sim", "adc_rmw_sim", "sbb_sim", "sbb_load_sim", "sbb_rmw_sim"],
     "rule": "instruction encodings enumerated from the opcode tables of harness/src/bin/c01.rs (mnemonic x operand size 8/16/32/64(/128) x "
-            "register/memory/immediate forms x legacy high-byte registers x rep/repne x both modes, plus 412 operand-aliasing forms -- same-register pairs, sub-register-of-destination sources, base/index = destination -- and 136 address-size-prefixed forms (amd64 0x67 32-bit addressing for lea/mov/add, x86 0x67 16-bit addressing for lea) -- that are visited first, 1 in 3, so the quick tier contains all 548 of them; about 5 800 forms); per memory operand the six states cycle through plain / wrapping (index with the top address bit set, base solved modulo 2^asz so that base+index*scale+disp wraps 2^16, 2^32 or 2^64 into a scratch page) / boundary-index scenarios, prefixed registers carry garbage above the address width, lea sums are placed at wrap-by-a-little, 2^asz-1 and 2^(asz-1), visited in a "
+            "register/memory/immediate forms x legacy high-byte registers x rep/repne x both modes, plus 412 operand-aliasing forms -- same-register pairs, sub-register-of-destination sources, base/index = destination -- and 212 address-size-prefixed forms (amd64 0x67 32-bit addressing and x86 0x67 16-bit addressing for lea/mov/add and the bit-string forms bt/bts/btr/btc m,r) -- that are visited first, 1 in 3, so the quick tier contains all 624 of them; about 5 900 forms); per memory operand the six states cycle through plain / wrapping (index with the top address bit set, base solved modulo 2^asz so that base+index*scale+disp wraps 2^16, 2^32 or 2^64 into a scratch page) / boundary-index scenarios, prefixed registers carry garbage above the address width, lea sums are placed at wrap-by-a-little, 2^asz-1 and 2^(asz-1), bit-string offsets of narrow-addressed bt* are a small amount plus a multiple of 2^(asz+3) (the element is mapped only if the whole address wraps at the address width), visited in a "
             "seed-dependent permutation, wrapping around with fresh operands/states when n exceeds the table; each encoding with 6 "
             "boundary-biased machine states (registers, flags, memory image, class-specific count/divisor/pointer hints); amd64 samples carry "
             "the host CPU's result; non-trivial = encoding accepted by the lifter; distinct by (mode, bytes)",
@@ -44,7 +44,7 @@ PROP = {
         "shld/shrd r/m16 with a masked count above 16 (imm8 or cl; the only count > operand size combination that exists), besides the per-component undefined results "
         "(flags after mul/div/bsf/bt, OF after multi-bit shifts/rotates/shld/shrd, CF after shl/shr by >= size, bsf/bsr destination for a zero source) which are masked out",
         "processor comparison only, no Coq specification: cmpxchg, xadd, bswap, sahf, SSE subset (mov*ps/pd/dq*, movq/movd, pxor/por/paddq/psubq/psubb/pcmpeq*/pminub/punpckl*/pshufd/pslldq/psrldq/pmovmskb, movhpd/movlpd)",
-        "accepted by the lifter but not generated (no coverage): segment-override forms (fs/gs), 16-bit addressing in 32-bit mode, moffs forms of mov, far control transfers, int/syscall/sysenter/hlt/cli/sti/ud2/pause/prefetch (privileged or no architectural state change), lock prefixes, cmpxchg8b/16b is not accepted",
+        "accepted by the lifter but not generated (no coverage): segment-override forms (fs/gs), 16-bit addressing in 32-bit mode for forms other than lea/mov/add/bt* (those are compared with the specification, image bytes below 64 KiB supplied explicitly), moffs forms of mov, far control transfers, int/syscall/sysenter/hlt/cli/sti/ud2/pause/prefetch (privileged or no architectural state change), lock prefixes, cmpxchg8b/16b is not accepted",
         "x86 (32-bit) SSE forms are rejected by the lifter (no xmm registers in the x86 register table) -- outside the property",
     ],
     "level_text": "Per run, inside the Coq kernel: every generated encoding is lifted by the real lifter, its IL is run in the reference IL semantics from 6 machine states and compared "
